@@ -8,6 +8,7 @@ use crate::csweep;
 use crate::sched;
 use crate::lockstep;
 use crate::progsweep;
+use crate::docsweep;
 use crate::seqx::Out;
 use serde_json::{json, Value};
 
@@ -160,6 +161,23 @@ pub fn plan(prop: &str, tier: &str) -> Option<Plan> {
                 },
             })
         }
+        "C13" => {
+            let mut jobs = Vec::new();
+            for f in ALL {
+                jobs.extend(sharded(prop, "docsweep", f, tier, json!({}), if tier == "quick" { 4 } else { 16 }));
+            }
+            Some(Plan {
+                jobs,
+                level: "fault_enumeration".into(),
+                rule: "for each of the four containers x {u8, String} keys x {JSON, CBOR}: (a) every schema-free document up to a size/depth bound over 7 atoms; (b) every valid document of every edge list on <=3 nodes up to the edge bound and every single structural fault of it at every position (drop / duplicate / swap / truncate / append / retype to 10 atom kinds / retarget to every declared and one undeclared key), fault pairs on the smallest seeds; (c) every byte prefix; (d) single-byte substitutions of the CBOR encodings and substitutions from the JSON structural alphabet. Oracle: no panic / hang; Err, or Ok(graph) satisfying the invariants whose nodes (first declared value) and edges (multiset) are contained in the schema-free reading of the document; Err whenever that reading shows an edge naming an undeclared key. nontrivial = every case except the plain valid documents".into(),
+                bounds: json!({"quick": "synthetic size<=5 depth<=3; seeds (n,edges) (1,2),(2,2),(3,2); a third of byte values", "thorough": "synthetic size<=6 depth<=4; seeds (1,2),(2,3),(3,3); all 256 byte values"}),
+                exhaustive: true,
+                assumptions: vec![
+                    "the schema-free reading uses serde_json::Value / serde_cbor::Value; documents they cannot read are only checked for no-panic and invariants".into(),
+                    "memory is capped with RLIMIT_AS; a worker that dies is attributed to its shard".into(),
+                ],
+            })
+        }
         "C15" => {
             let mut jobs = Vec::new();
             for f in ["sync_digraph", "sync_ungraph"] {
@@ -248,6 +266,7 @@ pub fn work(job: &Job, out: &mut Out) {
         "gsweep" => crate::with_flavor!(job.flavour.as_str(), F => gsweep::sweep::<F>(job, out)),
         "csweep" => crate::with_flavor!(job.flavour.as_str(), F => csweep::sweep::<F>(job, out)),
         "sched" => crate::with_sync_flavor!(job.flavour.as_str(), F => sched::sweep::<F>(job, out)),
+        "docsweep" => docsweep::sweep(job, out),
         "progsweep" => match job.property.as_str() {
             "C16" => progsweep::c16(job, out),
             other => panic!("GDSL_MC_HARNESS: progsweep has no sweep for {}", other),
@@ -267,6 +286,7 @@ pub fn replay(property: &str, engine: &str, flavour: &str, case: &Value) -> Vec<
         "gsweep" => crate::with_flavor!(flavour, F => gsweep::replay::<F>(property, case)),
         "csweep" => crate::with_flavor!(flavour, F => csweep::replay::<F>(property, case)),
         "sched" => crate::with_sync_flavor!(flavour, F => sched::replay::<F>(property, case)),
+        "docsweep" => docsweep::replay(property, case),
         "progsweep" => match property {
             "C16" => progsweep::replay_c16(property, case),
             other => panic!("GDSL_MC_HARNESS: progsweep has no replay for {}", other),
